@@ -21,6 +21,7 @@ import (
 	"sort"
 	"strings"
 	"sync"
+	"time"
 )
 
 // Kind classifies a scheduling point.
@@ -907,5 +908,38 @@ func BoltTx(write bool, f func() error) error {
 			TxHook(write, "end")
 		}
 	}()
-	return f()
+	// bbolt's own locks are real: a transaction that waits for one that is
+	// never released (a read transaction that was never closed blocks the
+	// remap a growing write needs) would park the baton holder for good.  The
+	// call therefore runs on a helper goroutine and is given a generous
+	// wall-clock limit; exceeding it is reported as a wedged server.
+	type result struct {
+		err error
+		pan interface{}
+	}
+	done := make(chan result, 1)
+	go func() {
+		var r result
+		defer func() {
+			if p := recover(); p != nil {
+				r.pan = p
+			}
+			done <- r
+		}()
+		r.err = f()
+	}()
+	select {
+	case r := <-done:
+		if r.pan != nil {
+			panic(r.pan)
+		}
+		return r.err
+	case <-time.After(BoltTxLimit):
+		s.abortNow("wedged", "a bolt transaction did not finish: it waits for a lock inside bbolt that is never released (a transaction left open?)")
+		return nil
+	}
 }
+
+// BoltTxLimit is the wall-clock time a single bbolt transaction may take
+// before the run is declared wedged.
+var BoltTxLimit = 8 * time.Second
